@@ -355,7 +355,10 @@ def ast_src(e, style=None):
     if t == "idx":
         i = e["i"]
         if i["t"] == "str" and ident_ok(from_cps(i["s"])) and style.get("dot", True):
-            return f"{wrap(e['e'], 1)}.{from_cps(i['s'])}"
+            base = wrap(e["e"], 1)
+            if e["e"]["t"] == "num" and not base.startswith("("):
+                base = f"({base})"          # `1.a` is lexically a malformed number, not a field access
+            return f"{base}.{from_cps(i['s'])}"
         return f"{wrap(e['e'], 1)}[{ast_src(i, style)}]"
     if t == "sup":
         i = e["i"]
